@@ -2,7 +2,7 @@
 from mc import meshmc
 from mc.meshcheck import check_neighbours
 from mc.meshmc import CFGS, build, build_ref, find_leaf, leafset
-from props.C02 import QUICK, THOROUGH
+from props.C02 import DEEP, QUICK, THOROUGH
 
 
 def state_fn(cfg, h, m, ref):
@@ -31,6 +31,10 @@ def run(ctx):
     onv = report(ctx)
     for cfgname, d in depths.items():
         meshmc.explore(ctx, cfgname, d, state_fn, None, onv, stats=st)
+    for cfgname in DEEP:
+        for name, root in meshmc.deep_histories(cfgname, 3 if ctx.tier == 'quick' else 5).items():
+            meshmc.explore(ctx, cfgname, 1 if ctx.tier == 'quick' else 2, state_fn, None, onv, stats=st, root=root,
+                           label='{}+deep:{}'.format(cfgname, name))
     # supplementary random walks
     nrw = 0
     for i in range(6 if ctx.tier == 'quick' else 40):
